@@ -607,6 +607,37 @@ func genC15(repo string) (string, error) {
 	})
 	fmt.Fprintf(&sb, "def readerInitSlices : List String := %s\n", LeanStrList(slices))
 
+	// whose FixedOffsetDecoder a reader reads through: every place in reader.go that sets the
+	// `offsets` field, and every use of encoding's decoder pool (Model/TableDecoders.lean)
+	var decSites []string
+	for _, d := range rf.Decls {
+		fd, ok := d.(*ast.FuncDecl)
+		if !ok || fd.Body == nil {
+			continue
+		}
+		ast.Inspect(fd.Body, func(n ast.Node) bool {
+			switch x := n.(type) {
+			case *ast.AssignStmt:
+				for _, l := range x.Lhs {
+					if se, ok := l.(*ast.SelectorExpr); ok && se.Sel.Name == "offsets" {
+						decSites = append(decSites, fd.Name.Name+": "+c15render(rfset, x))
+					}
+				}
+			case *ast.KeyValueExpr:
+				if id, ok := x.Key.(*ast.Ident); ok && id.Name == "offsets" {
+					decSites = append(decSites, fd.Name.Name+": "+c15render(rfset, x))
+				}
+			case *ast.CallExpr:
+				f := c15render(rfset, x.Fun)
+				if strings.HasPrefix(f, "encoding.") && strings.Contains(f, "FixedOffsetDecoder") && f != "encoding.NewFixedOffsetDecoder" {
+					decSites = append(decSites, fd.Name.Name+": "+c15render(rfset, x))
+				}
+			}
+			return true
+		})
+	}
+	fmt.Fprintf(&sb, "/-- every assignment of a reader's `offsets` field and every use of encoding's FixedOffsetDecoder pool in kv/table/reader.go -/\ndef readerDecoderSites : List String := %s\n", LeanStrList(decSites))
+
 	// ---- cache.go: the reader cache (Model/TableLRU.lean), statement for statement
 	cfset, cachef, err := ParseFile(repo, "kv/table/cache.go")
 	if err != nil {
